@@ -12,18 +12,20 @@ import GaeaVerif.Lemmas.SessConnsPins
      moment are two connections of one slice out (`one_conn_per_slice`), no
      backend call hits a connection that is not out
      (`never_used_after_return`), and the entry of a slice in `ksConns` does not
-     change from command to command (`ks_pinned_lifetime_partial`) as long as
-     the backend keeps the connection alive (no statement timeout, no failed
-     ping) and the namespace is not reloaded;
+     change from command to command (`ks_pin_stable`, `ks_pinned_lifetime`, for
+     all histories: any faults, timeouts, pings) until the session ends, the
+     namespace is reloaded, or the backend loses that very connection (then it
+     is closed, and replaced at the next statement - inside a transaction the
+     session is closed instead, C18.tx_affinity);
    * "released when the client disconnects": `ks_release`;
    * "after a configuration change they are dropped outside a transaction":
      `ks_nschange_outside_tx` — the first command after the reload closes and
      gives back every connection pinned before, and what it pins itself stays
-     (`ks_pin_stable_partial` applies again afterwards);
+     (`ks_pin_stable` applies again afterwards);
    * "a client inside a transaction is disconnected with an error":
      `ks_nschange_in_tx`.
   These hold of the repaired tree (fix commits 7a39468, 75817c9, 3388583,
-  40b3331); the old failing histories are in corpus/C23.
+  40b3331, 5a42848, cb8bfb6); the old failing histories are in corpus/C23.
 -/
 namespace GaeaVerif.C23
 open GaeaVerif.SessionConns
@@ -67,48 +69,80 @@ theorem ks_conns_out (cfg : Cfg) (ops : List Op) :
   obtain ⟨cn, hcn, h0, hsl⟩ := h.out e (by simp [held, he])
   exact ⟨cn, hcn, hsl, h0⟩
 
-def Calm (ops : List Op) : Prop := ∀ op ∈ ops, CalmOp op
-
-def qCalm : Q := { t := false, p := true }
-
-theorem idle_calm (cfg : Cfg) (ops : List Op) (h : Calm ops) : Idle qCalm cfg (run cfg ops) :=
-  idle_run cfg ops (fun op hop => ⟨fun hq => by simp [qCalm] at hq, fun _ => h op hop⟩)
-
-/-- FULL STATEMENT: the same without `Calm` — false by design when the backend
-    loses the connection (a statement timeout closes it; after a failed ping all
-    pinned connections are given up and the client is disconnected): the
-    property cannot ask for a connection the backend no longer provides.
-
-    One more command (anything but quit), no reload pending: every pinned
-    connection stays pinned, the session stays open, and still no reload is
-    pending. -/
-theorem ks_pin_stable_partial (cfg : Cfg) (ops : List Op) (op : Op)
-    (hc : Calm ops) (hco : CalmOp op) (hcmd : op.body.isCommand = true) (hq : op.body ≠ .quit)
+/-- One more command on an open session with no reload pending, whatever its
+    faults, timeouts and iteration order: every pinned connection is still pinned
+    afterwards - unless the session has been closed (quit, a failed ping, a
+    transaction that lost a connection, a response that could not be delivered),
+    or the backend has lost that very connection (it is closed: a statement
+    timeout, a broken connection) outside a transaction, in which case it is
+    replaced: the property cannot ask for a connection the backend no longer
+    provides.  Afterwards still no reload is pending. -/
+theorem ks_pin_stable (cfg : Cfg) (ops : List Op) (op : Op)
+    (hcmd : op.body.isCommand = true)
     (hopen : (run cfg ops).closed = false) (hnr : (run cfg ops).nsCur ≤ (run cfg ops).nsOld) :
-    (∀ e ∈ (run cfg ops).ksConns, e ∈ (run cfg (ops ++ [op])).ksConns) ∧
-    (run cfg (ops ++ [op])).closed = false ∧
-    (run cfg (ops ++ [op])).nsCur ≤ (run cfg (ops ++ [op])).nsOld := by
+    (∀ e ∈ (run cfg ops).ksConns,
+      e ∈ (run cfg (ops ++ [op])).ksConns ∨ (run cfg (ops ++ [op])).closed = true ∨
+      (isClosed e.2 (run cfg (ops ++ [op])).w = true ∧ (run cfg ops).isInTransaction = false)) ∧
+    ((run cfg (ops ++ [op])).closed = true ∨
+      (run cfg (ops ++ [op])).nsCur ≤ (run cfg (ops ++ [op])).nsOld) := by
   rw [run_snoc]
-  obtain ⟨⟨B, hB⟩, _, hcl, hn⟩ := grow_step (q := qCalm) cfg op
-    ⟨fun hq => by simp [qCalm] at hq, fun _ => hco⟩ rfl hcmd hq (idle_calm cfg ops hc) hopen (Or.inr hnr)
-  exact ⟨fun e he => by rw [hB]; exact List.mem_append_left _ he, hcl, hn⟩
+  have key := keep_step cfg op (qhop_none op) (idle_run_all cfg ops) hopen (Or.inr hnr) hcmd
+  exact ⟨key.ks, key.ns⟩
 
-/-- From any point of a history at which no reload is pending, through any
-    further commands (no quit, no disconnect, no reload; any faults except
-    statement timeouts and ping failures): the connection pinned for a slice
-    stays the same and the session stays open. -/
-theorem ks_pinned_lifetime_partial (cfg : Cfg) (ops mid : List Op)
-    (hc : Calm (ops ++ mid)) (hcmd : ∀ op ∈ mid, op.body.isCommand = true ∧ op.body ≠ .quit)
+theorem closed_step (cfg : Cfg) (s : St) (op : Op) (h : s.closed = true) : (step cfg s op).1.closed = true := by
+  unfold step; simp [h]
+
+/-- `ks_pinned_lifetime` - from any point of a history at which the session is
+    open and no reload is pending, through any further commands (statements on
+    any slices, transactions, pings, quit; any backend faults, statement
+    timeouts, lost connections, iteration orders): the connection pinned for a
+    slice is still the same at the end, unless the session has ended or the
+    backend has lost that connection (it is closed). -/
+theorem ks_pinned_lifetime (cfg : Cfg) (ops mid : List Op)
+    (hcmd : ∀ op ∈ mid, op.body.isCommand = true)
     (hopen : (run cfg ops).closed = false) (hnr : (run cfg ops).nsCur ≤ (run cfg ops).nsOld) :
-    (∀ e ∈ (run cfg ops).ksConns, e ∈ (run cfg (ops ++ mid)).ksConns) ∧
-    (run cfg (ops ++ mid)).closed = false := by
-  induction mid generalizing ops with
-  | nil => exact ⟨fun e he => by simpa using he, by simpa using hopen⟩
-  | cons op mid ih =>
-    obtain ⟨h1, h2, h3⟩ := ks_pin_stable_partial cfg ops op (fun o ho => hc o (by simp [ho])) (hc op (by simp))
-      (hcmd op (by simp)).1 (hcmd op (by simp)).2 hopen hnr
-    obtain ⟨h4, h5⟩ := ih (ops ++ [op]) (by simpa using hc) (fun o ho => hcmd o (by simp [ho])) h2 h3
-    exact ⟨fun e he => by simpa using h4 e (h1 e he), by simpa using h5⟩
+    ∀ e ∈ (run cfg ops).ksConns,
+      e ∈ (run cfg (ops ++ mid)).ksConns ∨ (run cfg (ops ++ mid)).closed = true ∨
+      isClosed e.2 (run cfg (ops ++ mid)).w = true := by
+  -- the state of the induction: pinned / session closed / connection closed, and "closed or no reload pending"
+  have gen : ∀ (mid : List Op) (ops : List Op) (e : Nat × Nat), (∀ op ∈ mid, op.body.isCommand = true) →
+      (e ∈ (run cfg ops).ksConns ∨ (run cfg ops).closed = true ∨ isClosed e.2 (run cfg ops).w = true) →
+      ((run cfg ops).closed = true ∨ (run cfg ops).nsCur ≤ (run cfg ops).nsOld) →
+      e ∈ (run cfg (ops ++ mid)).ksConns ∨ (run cfg (ops ++ mid)).closed = true ∨
+        isClosed e.2 (run cfg (ops ++ mid)).w = true := by
+    intro mid
+    induction mid with
+    | nil => intro ops e _ h _; simpa using h
+    | cons op mid ih =>
+      intro ops e hc h hn
+      have hstep : (e ∈ (run cfg (ops ++ [op])).ksConns ∨ (run cfg (ops ++ [op])).closed = true ∨
+            isClosed e.2 (run cfg (ops ++ [op])).w = true) ∧
+          ((run cfg (ops ++ [op])).closed = true ∨
+            (run cfg (ops ++ [op])).nsCur ≤ (run cfg (ops ++ [op])).nsOld) := by
+        cases hcl : (run cfg ops).closed with
+        | true =>
+          have : (run cfg (ops ++ [op])).closed = true := by rw [run_snoc]; exact closed_step cfg _ op hcl
+          exact ⟨Or.inr (Or.inl this), Or.inl this⟩
+        | false =>
+          have hnr' : (run cfg ops).nsCur ≤ (run cfg ops).nsOld := by
+            rcases hn with hn | hn
+            · rw [hcl] at hn; cases hn
+            · exact hn
+          obtain ⟨h1, h2⟩ := ks_pin_stable cfg ops op (hc op (by simp)) hcl hnr'
+          refine ⟨?_, h2⟩
+          rcases h with h | h | h
+          · rcases h1 e h with h3 | h3 | ⟨h3, _⟩
+            · exact Or.inl h3
+            · exact Or.inr (Or.inl h3)
+            · exact Or.inr (Or.inr h3)
+          · rw [hcl] at h; cases h
+          · right; right
+            have hext : Ext (run cfg ops).w (run cfg (ops ++ [op])).w := by rw [run_snoc]; exact ext_step cfg op
+            exact isClosed_ext hext h
+      have := ih (ops ++ [op]) e (fun o ho => hc o (by simp [ho])) hstep.1 hstep.2
+      simpa using this
+  intro e he
+  exact gen mid ops e hcmd (Or.inl he) (Or.inr hnr)
 
 /-- When the session has ended it pins nothing, and every connection it ever
     took was given back exactly once.  For all histories. -/
@@ -242,9 +276,7 @@ theorem ks_nschange_in_tx (cfg : Cfg) (ops : List Op) (op : Op) (hks : cfg.ks = 
     (hns : (run cfg ops).nsCur > (run cfg ops).nsOld) (hin : (run cfg ops).isInTransaction = true) :
     (step cfg (run cfg ops) op).2 = .err ∧ (run cfg (ops ++ [op])).closed = true := by
   have hI := idle_run_all cfg ops
-  have hcont := hI.cont
   rw [run_snoc]
-  have hin' : ((run cfg ops).inTrans || !(run cfg ops).autocommit) = true := hin
   have e : step cfg (run cfg ops) op = runCommand { cfg := cfg, ord := op.ord, faults := op.faults } op.body
       { (run cfg ops) with w := { (run cfg ops).w with trace := [] } } := by
     unfold step
@@ -255,12 +287,8 @@ theorem ks_nschange_in_tx (cfg : Cfg) (ops : List Op) (op : Op) (hks : cfg.ks = 
     · rename_i hb'; rw [hb'] at hcmd; simp [Body.isCommand] at hcmd
     · rfl
   rw [e]
-  unfold runCommand
-  simp only [clearKsConns, shouldClear, St.isInTransaction, hks, hin', hns, writeResponse, hcont,
-    recycleContinueConn, sessionClose, hopen, Bool.not_true, Bool.and_false, Bool.false_eq_true, if_false,
-    Bool.and_self, Bool.true_and, decide_true, if_true, Bool.or_true, bne_iff_ne, ne_eq, reduceCtorEq,
-    not_false_eq_true, decide_true, Bool.not_true, Bool.and_true]
-  exact ⟨rfl, rfl⟩
+  exact closed_runCommand_reload_in_tx (ctx := { cfg := cfg, ord := op.ord, faults := op.faults })
+    (s := { (run cfg ops) with w := { (run cfg ops).w with trace := [] } }) op.body hks hns hin hI.cont hopen
 
 /-! Non-vacuity -/
 
@@ -276,7 +304,18 @@ example : (run { ks := true, user := .w, fb := true } demoOps).ksConns = [(1, 0)
 example : (run { ks := true, user := .w, fb := true } (demoOps ++ demoMid)).ksConns = [(1, 0), (0, 1)] := by decide
 example : (run { ks := true, user := .w, fb := true } demoOps).closed = false ∧
     (run { ks := true, user := .w, fb := true } demoOps).nsCur ≤ (run { ks := true, user := .w, fb := true } demoOps).nsOld := by decide
-example : ∀ op ∈ demoMid, op.body.isCommand = true ∧ op.body ≠ .quit := by decide
+example : ∀ op ∈ demoMid, op.body.isCommand = true := by decide
+/-- a statement timeout outside a transaction: the lost connection 1 (slice 0) is closed and replaced by connection 2,
+    the connection of slice 1 stays pinned -/
+def lostMid : List Op :=
+  [ { body := .commit, ord := [0, 1], faults := [] },
+    { body := .qu .w, ord := [0, 1], faults := [{ k := .x, slice := 0, mode := .t }] },
+    { body := .qu .w, ord := [0, 1], faults := [] } ]
+example : (run { ks := true, user := .w, fb := true } (demoOps ++ lostMid)).ksConns = [(1, 0), (0, 2)] ∧
+    (run { ks := true, user := .w, fb := true } (demoOps ++ lostMid)).closed = false ∧
+    isClosed 1 (run { ks := true, user := .w, fb := true } (demoOps ++ lostMid)).w = true := by decide
+/-- the same timeout inside the transaction ends the session -/
+example : (run { ks := true, user := .w, fb := true } (demoOps ++ lostMid.drop 1)).closed = true := by decide
 
 /-- a reload outside a transaction: the old connection 0 is closed and given back, connection 1 takes over -/
 def reloadOps : List Op :=
